@@ -355,7 +355,9 @@ theorem step_frame_other {s s' : State} {op : Op} (hop : ∀ b d, op ≠ .gotBlo
     simp only [step, Option.some.injEq] at h
     subst h
     unfold rejected
-    split <;> simp
+    split
+    · simp
+    · split <;> simp
   | requestBlocks q =>
     simp only [step, requestBlocks, Option.map_eq_some_iff] at h
     obtain ⟨⟨s1, r⟩, h1, h2⟩ := h
@@ -777,9 +779,11 @@ theorem step_pending {ops : List Op} {s s' : State} {op : Op} (h : step s op = s
     unfold rejected
     split
     · exact hm
-    · have := @length_setDelete_le s.pending b
-      simp only
-      omega
+    · split
+      · exact hm
+      · have := @length_setDelete_le s.pending b
+        simp only
+        omega
   | requestBlocks q =>
     simp only [step, requestBlocks, Option.map_eq_some_iff] at h
     obtain ⟨⟨s1, r⟩, h1, h2⟩ := h
@@ -913,13 +917,15 @@ theorem step_some {bl : List Block} {n : Nat} (hw : WFBlocks bl n) {s : State} (
     unfold rejected
     by_cases hf : findBlock s b l = true
     · simp only [hf, Bool.not_true, Bool.false_eq_true, if_false]
-      refine ⟨hi.blocks, fun x hx => hi.pendSub x (mem_setDelete.mp hx).1, ?_⟩
-      intro x hx
-      simp only [List.mem_append, List.mem_singleton] at hx
-      rcases hx with hx | rfl
-      · exact hi.remSub x hx
-      · have := (findBlock_iff hw s hi.blocks x l).mp hf
-        exact List.mem_map.mpr ⟨_, this, rfl⟩
+      split
+      · exact hi
+      · refine ⟨hi.blocks, fun x hx => hi.pendSub x (mem_setDelete.mp hx).1, ?_⟩
+        intro x hx
+        simp only [List.mem_append, List.mem_singleton] at hx
+        rcases hx with hx | rfl
+        · exact hi.remSub x hx
+        · have := (findBlock_iff hw s hi.blocks x l).mp hf
+          exact List.mem_map.mpr ⟨_, this, rfl⟩
     · have : findBlock s b l = false := by simpa using hf
       simp only [this, Bool.not_false, if_true]
       exact hi
@@ -1038,8 +1044,10 @@ theorem step_pendFresh {s s' : State} {op : Op} (hp : PendFresh s) (h : step s o
     unfold rejected
     split
     · exact hp
-    · intro y hy
-      exact hp y (mem_setDelete.mp hy).1
+    · split
+      · exact hp
+      · intro y hy
+        exact hp y (mem_setDelete.mp hy).1
   | requestBlocks q =>
     simp only [step, requestBlocks, Option.map_eq_some_iff] at h
     obtain ⟨⟨s1, r⟩, h1, h2⟩ := h
@@ -1301,15 +1309,17 @@ theorem step_inv3 {bl : List Block} {n : Nat} (hw : WFBlocks bl n) {s s' : State
     unfold rejected
     split
     · exact hi
-    · refine ⟨?_, hi.doneSub, hi.doneNodup⟩
-      intro x hx
-      simp only [List.mem_append, List.mem_singleton]
-      rcases hi.cover x hx with hx | hx | hx
-      · exact Or.inl (Or.inl hx)
-      · by_cases hxb : x = b
-        · exact Or.inl (Or.inr hxb)
-        · exact Or.inr (Or.inl (mem_setDelete.mpr ⟨hx, hxb⟩))
-      · exact Or.inr (Or.inr hx)
+    · split
+      · exact hi
+      · refine ⟨?_, hi.doneSub, hi.doneNodup⟩
+        intro x hx
+        simp only [List.mem_append, List.mem_singleton]
+        rcases hi.cover x hx with hx | hx | hx
+        · exact Or.inl (Or.inl hx)
+        · by_cases hxb : x = b
+          · exact Or.inl (Or.inr hxb)
+          · exact Or.inr (Or.inl (mem_setDelete.mpr ⟨hx, hxb⟩))
+        · exact Or.inr (Or.inr hx)
   | requestBlocks q =>
     simp only [step, requestBlocks, Option.map_eq_some_iff] at h
     obtain ⟨⟨s1, r⟩, h1, h2⟩ := h
@@ -1378,6 +1388,269 @@ theorem not_isDone_missing {bl : List Block} {n : Nat} (hw : WFBlocks bl n) {s :
   rw [hlenB] at hnd
   simp at h1 h2 hnd
   omega
+
+/-! ### No block is queued twice; the window counts the requests at the peer (C17) -/
+
+/-- `remaining` and `pending` are duplicate-free and disjoint. -/
+structure Inv4 (s : State) : Prop where
+  remNodup : s.remaining.Nodup
+  pendNodup : s.pending.Nodup
+  disj : ∀ x ∈ s.remaining, x ∉ s.pending
+
+theorem inv4_init {bl : List Block} (hk : (bl.map (·.b)).Nodup) (af : Bool) (buf : Bytes) :
+    Inv4 (init bl af buf) :=
+  ⟨by simpa [init, makeRemaining] using hk, by simp [init], by simp [init]⟩
+
+theorem length_setInsert_fresh {s : List Nat} {k : Nat} (h : k ∉ s) :
+    (setInsert s k).length = s.length + 1 := by
+  unfold setInsert
+  simp [h]
+
+theorem length_setDelete_mem {s : List Nat} {k : Nat} (hnd : s.Nodup) (h : k ∈ s) :
+    (setDelete s k).length + 1 = s.length := by
+  induction s with
+  | nil => simp at h
+  | cons a rest ih =>
+    rw [List.nodup_cons] at hnd
+    unfold setDelete
+    by_cases hak : a = k
+    · subst hak
+      have hfil : rest.filter (fun x => x != a) = rest := by
+        rw [List.filter_eq_self]
+        intro y hy
+        have : y ≠ a := fun e => hnd.1 (e ▸ hy)
+        simpa using this
+      simp [hfil]
+    · have hk : k ∈ rest := by
+        rcases List.mem_cons.mp h with e | e
+        · exact absurd e.symm hak
+        · exact e
+      have := ih hnd.2 hk
+      unfold setDelete at this
+      simp [hak]
+      omega
+
+theorem requestLoop_inv4 (q : Int) : ∀ (snap : List Nat) (s : State) (acc : List (Nat × Nat))
+    (s' : State) (r : List (Nat × Nat)), s.remaining = snap →
+    requestLoop q snap s acc = some (s', r) → Inv4 s → Inv4 s' := by
+  intro snap
+  induction snap with
+  | nil =>
+    intro s acc s' r _ h hi
+    simp [requestLoop] at h
+    rw [← h.1]; exact hi
+  | cons x rest ih =>
+    intro s acc s' r hrem h hi
+    have hnd := hi.remNodup
+    rw [hrem, List.nodup_cons] at hnd
+    unfold requestLoop at h
+    split at h
+    · simp at h
+      rw [← h.1]; exact hi
+    · split at h
+      · cases h
+      · split at h
+        · apply ih _ _ _ _ (by simp [hrem]) h
+          refine ⟨by simpa [hrem] using hnd.2, hi.pendNodup, ?_⟩
+          intro y hy
+          simp only [hrem, List.drop_succ_cons, List.drop_zero] at hy
+          exact hi.disj y (by rw [hrem]; exact List.mem_cons_of_mem _ hy)
+        · apply ih _ _ _ _ (by simp [hrem]) h
+          refine ⟨by simpa [hrem] using hnd.2, nodup_setInsert hi.pendNodup, ?_⟩
+          intro y hy hyp
+          simp only [hrem, List.drop_succ_cons, List.drop_zero] at hy
+          rcases mem_setInsert.mp hyp with hyp | rfl
+          · exact hi.disj y (by rw [hrem]; exact List.mem_cons_of_mem _ hy) hyp
+          · exact hnd.1 hy
+
+/-- Each request the loop sends adds one entry to the window. -/
+theorem requestLoop_count (q : Int) : ∀ (snap : List Nat) (s : State) (acc : List (Nat × Nat))
+    (s' : State) (r : List (Nat × Nat)), snap.Nodup → (∀ x ∈ snap, x ∉ s.pending) →
+    requestLoop q snap s acc = some (s', r) →
+    s'.pending.length + acc.length = s.pending.length + r.length := by
+  intro snap
+  induction snap with
+  | nil =>
+    intro s acc s' r _ _ h
+    simp [requestLoop] at h
+    rw [← h.1, ← h.2]; simp
+  | cons x rest ih =>
+    intro s acc s' r hnd hdis h
+    rw [List.nodup_cons] at hnd
+    unfold requestLoop at h
+    split at h
+    · simp at h
+      rw [← h.1, ← h.2]; simp
+    · split at h
+      · cases h
+      · split at h
+        · have := ih { s with remaining := s.remaining.drop 1 } _ _ _ hnd.2
+            (fun y hy => hdis y (List.mem_cons_of_mem _ hy)) h
+          exact this
+        · have hx : x ∉ s.pending := hdis x List.mem_cons_self
+          have := ih _ _ _ _ hnd.2 (by
+            intro y hy hyp
+            rcases mem_setInsert.mp hyp with hyp | rfl
+            · exact hdis y (List.mem_cons_of_mem _ hy) hyp
+            · exact hnd.1 hy) h
+          simp only [List.length_cons, length_setInsert_fresh hx] at this
+          omega
+
+theorem requestBlocks_window {s s' : State} {q : Int} {r : List (Nat × Nat)} (hi : Inv4 s)
+    (h : requestBlocks s q = some (s', r)) : s'.pending.length = s.pending.length + r.length := by
+  have := requestLoop_count q _ _ _ _ _ hi.remNodup hi.disj h
+  simpa using this
+
+theorem gotBlock_window (s : State) (hi : Inv4 s) (b : Nat) (d : Bytes) :
+    (gotBlock s b d).1.pending.length + (if (gotBlock s b d).2 = .ok then 1 else 0) = s.pending.length := by
+  unfold gotBlock
+  split
+  · simp
+  · split
+    · simp
+    · split
+      · simp
+      · split
+        · simp
+        · rename_i hp
+          have hp' : b ∈ s.pending := by simpa using hp
+          simpa using length_setDelete_mem hi.pendNodup hp'
+
+theorem rejected_window (s : State) (hi : Inv4 s) (b l : Nat) :
+    (rejected s b l).1.pending.length + (if findBlock s b l && s.pending.contains b then 1 else 0) =
+      s.pending.length := by
+  unfold rejected
+  by_cases hf : findBlock s b l = true
+  · by_cases hp : b ∈ s.pending
+    · have := length_setDelete_mem hi.pendNodup hp
+      simp [hf, hp]
+      omega
+    · simp [hf, hp]
+  · have hf' : findBlock s b l = false := by simpa using hf
+    simp [hf']
+
+theorem choked_window (s : State) (pf : Bool) (order : List Nat) :
+    (choked s pf order).pending.length + (if chokedRequeues s pf then s.pending.length else 0) =
+      s.pending.length := by
+  unfold choked chokedRequeues
+  cases s.allowedFast <;> cases pf <;> simp
+
+theorem step_inv4 {s s' : State} {op : Op} (hi : Inv4 s)
+    (hadm : ∀ pf order, op = .choked pf order → chokedRequeues s pf = true → chokedAdmissible s order = true)
+    (h : step s op = some s') : Inv4 s' := by
+  cases op with
+  | gotBlock b d =>
+    simp only [step, Option.some.injEq] at h
+    subst h
+    unfold gotBlock
+    split
+    · exact hi
+    · split
+      · exact hi
+      · split
+        · exact hi
+        · split
+          · exact ⟨hi.remNodup, hi.pendNodup, hi.disj⟩
+          · exact ⟨hi.remNodup, nodup_setDelete hi.pendNodup,
+              fun x hx hxp => hi.disj x hx (mem_setDelete.mp hxp).1⟩
+  | choked pf order =>
+    simp only [step, Option.some.injEq] at h
+    subst h
+    unfold choked
+    by_cases haf : s.allowedFast = true
+    · simp only [haf, if_true]; exact hi
+    · by_cases hpf : pf = true
+      · simp only [haf, hpf, if_true]
+        simp; exact hi
+      · have hq : chokedRequeues s pf = true := by
+          unfold chokedRequeues
+          simp at haf hpf
+          simp [haf, hpf]
+        have hperm := List.isPerm_iff.mp (hadm pf order rfl hq)
+        simp only [haf, hpf]
+        refine ⟨?_, by simp, by simp⟩
+        simp only [Bool.false_eq_true, if_false]
+        rw [List.nodup_append]
+        refine ⟨hi.remNodup, hperm.nodup_iff.mpr hi.pendNodup, ?_⟩
+        intro a ha b hb e
+        subst e
+        exact hi.disj a ha (hperm.subset hb)
+  | rejected b l =>
+    simp only [step, Option.some.injEq] at h
+    subst h
+    unfold rejected
+    split
+    · exact hi
+    · split
+      · exact hi
+      · rename_i hp
+        have hp' : b ∈ s.pending := by simpa using hp
+        refine ⟨?_, nodup_setDelete hi.pendNodup, ?_⟩
+        · simp only
+          rw [List.nodup_append]
+          refine ⟨hi.remNodup, by simp, ?_⟩
+          intro a ha c hc e
+          simp only [List.mem_singleton] at hc
+          subst hc
+          subst e
+          exact hi.disj a ha hp'
+        · intro x hx hxp
+          simp only [List.mem_append, List.mem_singleton] at hx
+          obtain ⟨hxp1, hxp2⟩ := mem_setDelete.mp hxp
+          rcases hx with hx | rfl
+          · exact hi.disj x hx hxp1
+          · exact hxp2 rfl
+  | requestBlocks q =>
+    simp only [step, requestBlocks, Option.map_eq_some_iff] at h
+    obtain ⟨⟨s1, r⟩, h1, h2⟩ := h
+    simp only at h2
+    subst h2
+    exact requestLoop_inv4 q _ _ _ _ _ rfl h1 hi
+  | cancelPending =>
+    simp only [step, Option.map_eq_some_iff] at h
+    obtain ⟨_, _, h2⟩ := h
+    subst h2
+    exact hi
+  | done =>
+    simp only [step, Option.some.injEq] at h
+    subst h
+    exact hi
+
+theorem admissible_head {s : State} {op : Op} {rest : List Op} (hadm : admissibleRun s (op :: rest) = true) :
+    (∀ pf order, op = .choked pf order → chokedRequeues s pf = true → chokedAdmissible s order = true) ∧
+    (∀ s1, step s op = some s1 → admissibleRun s1 rest = true) := by
+  unfold admissibleRun at hadm
+  rw [Bool.and_eq_true] at hadm
+  refine ⟨?_, ?_⟩
+  · intro pf order hop hq
+    subst hop
+    have := hadm.1
+    simp only [hq, Bool.not_true, Bool.false_or] at this
+    exact this
+  · intro s1 hs1
+    have := hadm.2
+    rw [hs1] at this
+    exact this
+
+theorem run_inv4 : ∀ (ops : List Op) (s s' : State), Inv4 s → admissibleRun s ops = true →
+    run s ops = some s' → Inv4 s' := by
+  intro ops
+  induction ops with
+  | nil =>
+    intro s s' hi _ h
+    simp [run, List.foldlM] at h
+    subst h
+    exact hi
+  | cons op rest ih =>
+    intro s s' hi hadm h
+    obtain ⟨hadm1, hadm2⟩ := admissible_head hadm
+    unfold run at h
+    rw [List.foldlM_cons] at h
+    cases hs : step s op with
+    | none => rw [hs] at h; cases h
+    | some s1 =>
+      rw [hs] at h
+      exact ih s1 s' (step_inv4 hi hadm1 hs) (hadm2 s1 hs) h
 
 /-! ### Blocks cover exactly the data bytes -/
 
